@@ -93,16 +93,14 @@ Definition generate_next_block2_request (request_to_repeat : request) (assembled
 Definition etag_eqb (a b : option Z) : bool :=
   match a, b with None, None => true | Some x, Some y => x =? y | _, _ => false end.
 
-(* message.py:474-495 (self = assembled response) *)
+(* message.py:474-495 (self = assembled response): the guards are the TRANSLATED ones (Gen/block_kernels.append_response_block_guard:
+   payload size valid for the block option, block2.start = len(self.payload), same ETag), then the block is appended *)
 Definition append_response_block (assembled next_block : response) : M response :=
   match rs_block2 next_block with
   | None => Raise AttributeError
   | Some (n, m, szx) =>
-    valid <- bt_is_valid_for_payload_size n m szx (blen (rs_payload next_block)) ;;
-    if negb valid then Raise UnexpectedBlock2 else
-    start <- bt_start n m szx ;;
-    if negb (start =? blen (rs_payload assembled)) then Raise NotImplementedError (* error.NotImplemented *) else
-    if negb (etag_eqb (rs_etag next_block) (rs_etag assembled)) then Raise ResourceChanged else
+    _ <- append_response_block_guard n m szx (blen (rs_payload next_block)) (blen (rs_payload assembled))
+                                     (negb (etag_eqb (rs_etag next_block) (rs_etag assembled))) ;;
     Ok {| rs_code := rs_code assembled; rs_block1 := rs_block1 assembled; rs_block2 := Some (n, m, szx);
           rs_etag := rs_etag assembled; rs_payload := rs_payload assembled ++ rs_payload next_block;
           rs_maxexp := rs_maxexp assembled; rs_observe := rs_observe assembled |}
